@@ -60,6 +60,38 @@ def lit_key(e, t):
   return (norm(e), t)
 
 
+_NEG = {ast.Lt: ast.GtE, ast.GtE: ast.Lt, ast.Gt: ast.LtE, ast.LtE: ast.Gt, ast.Eq: ast.NotEq, ast.NotEq: ast.Eq,
+        ast.Is: ast.IsNot, ast.IsNot: ast.Is, ast.In: ast.NotIn, ast.NotIn: ast.In}
+_SWAP = {ast.Lt: ast.Gt, ast.Gt: ast.Lt, ast.LtE: ast.GtE, ast.GtE: ast.LtE, ast.Eq: ast.Eq, ast.NotEq: ast.NotEq}
+_SYM = {ast.Lt: '<', ast.Gt: '>', ast.LtE: '<=', ast.GtE: '>=', ast.Eq: '==', ast.NotEq: '!=', ast.Is: 'is', ast.IsNot: 'is not',
+        ast.In: 'in', ast.NotIn: 'not in'}
+
+
+def rel_forms(e, t):
+  """All spellings of the relation asserted by literal (e, t): `not a < b` -> {'a >= b', 'b <= a'}; a non-comparison
+  gives {'e'} or {'not e'}."""
+  if isinstance(e, ast.Compare) and len(e.ops) == 1 and type(e.ops[0]) in _NEG:
+    op = type(e.ops[0]) if t else _NEG[type(e.ops[0])]
+    a, b = norm(e.left), norm(e.comparators[0])
+    out = {'%s %s %s' % (a, _SYM[op], b)}
+    if op in _SWAP:
+      out.add('%s %s %s' % (b, _SYM[_SWAP[op]], a))
+    return out
+  return {norm(e) if t else 'not ' + norm(e)}
+
+
+def asserted_forms(e, taken):
+  """Spellings of every relation certainly asserted when test `e` has outcome `taken` (negations pushed inwards;
+  a disjunction asserts nothing certain)."""
+  dnf = literals(e, taken)
+  if len(dnf) != 1:
+    return set()
+  out = set()
+  for atom, t in dnf[0]:
+    out |= rel_forms(atom, t)
+  return out
+
+
 def never_true(e):
   """Literals that cannot hold: identity with a freshly created float/int/str/list object."""
   if isinstance(e, ast.Compare) and len(e.ops) == 1 and isinstance(e.ops[0], ast.Is):
@@ -89,18 +121,28 @@ class PathFacts:
     self.path = path
     dnf = [[]]
     self.tests = []
+    # path-local environment: name -> (last definition on this path, environment at that definition); only when the
+    # path starts at the function entry (otherwise earlier definitions on the path are unknown)
+    env = {} if rd is not None else None     # only names defined on the path itself are entered: their last definition is known
     for i, (n, lab) in enumerate(path):
       if n.kind == 'test' and i + 1 < len(path):
         taken = path[i + 1][1]
         if taken not in ('true', 'false'):
           continue
-        e = rd.expand(n, n.expr, keep=keep)[0] if rd is not None else n.expr
+        e = rd.expand(n, n.expr, keep=keep, pathenv=env)[0] if rd is not None else n.expr
         self.tests.append((n, e, taken == 'true'))
         lits = literals(e, taken == 'true')
         dnf = [a + b for a in dnf for b in lits if consistent(a + b)]
         if len(dnf) > MAX_DNF:
           dnf = dnf[:MAX_DNF]
+      if env is not None:
+        snapshot = None
+        for d in rd.gen.get(n, ()):
+          if snapshot is None:
+            snapshot = dict(env)
+          env[d.name] = (d, snapshot)
     self.dnf = dnf
+    self.env = env or {}
     self.feasible = bool(dnf)
 
   def every_case_has(self, pred):
